@@ -21,17 +21,19 @@ def FreshAll (s : State) : Prop := ∀ g, s.cont g = true → CacheOk s g
 
 theorem FreshAll.fresh {s : State} (h : FreshAll s) : Fresh s := fun g _ hc => h g hc
 
-/-- everything except the caches -/
+/-- everything except the caches: the tree, the dirty flags and the tagged-block key lists of the records
+(what a later answer or a save can show) -/
 structure SameObs (s s' : State) : Prop where
   tree : SameTree s s'
   dirty : s'.dirty = s.dirty
+  blocks : s'.blocks = s.blocks
 
-theorem SameObs.refl (s : State) : SameObs s s := ⟨SameTree.refl s, rfl⟩
+theorem SameObs.refl (s : State) : SameObs s s := ⟨SameTree.refl s, rfl, rfl⟩
 theorem SameObs.trans {a b c : State} (h1 : SameObs a b) (h2 : SameObs b c) : SameObs a c :=
-  ⟨h1.tree.trans h2.tree, h2.dirty.trans h1.dirty⟩
+  ⟨h1.tree.trans h2.tree, h2.dirty.trans h1.dirty, h2.blocks.trans h1.blocks⟩
 
 theorem sameObs_cache (s : State) (c : Id → Option BBox) : SameObs s { s with cache := c } :=
-  ⟨sameTree_cache s c, rfl⟩
+  ⟨sameTree_cache s c, rfl, rfl⟩
 
 theorem Attached.congr {s s' : State} (h : s'.children = s.children) (hk : s'.kind = s.kind) {x : Id}
     (a : Attached s x) : Attached s' x := by
@@ -129,6 +131,7 @@ theorem observe_obs (s : State) (o : Obs) : SameObs s (observe s o).1 := by
     · split <;> exact SameObs.refl s
   | contains g x => exact SameObs.refl s
   | isVisible x => simp only [observe]; split <;> exact SameObs.refl s
+  | getter x => exact SameObs.refl s
   | touch xs => exact touchAll_obs s xs
 
 /-- a read fills the cache of `x` with the fresh value, and touches no other cache -/
@@ -245,6 +248,7 @@ theorem cacheOk_observe {s : State} (o : Obs) (g : Id) (h : CacheOk s g) : Cache
     · split <;> exact h
   | contains g' x => exact h
   | isVisible x => simp only [observe]; split <;> exact h
+  | getter x => exact h
   | touch xs => exact cacheOk_touchAll xs g h
 
 /-- observations keep the caches fresh -/
